@@ -154,6 +154,36 @@ def invalid_refs(res):
         res.violation('h15:invalid-reference:' + q[-20:], 'invalid PIVOT BY references are rejected at compile time', {'query': q}, got, 'CompilationError')
 
 
+def limited(res):
+    """ORDER BY ... LIMIT n apply to the un-pivoted aggregate result; PIVOT BY reshapes exactly the rows that are left"""
+    conn = make_conn(**{n: (COLS, r) for n, r in tables().items()})
+    nkey = lambda v: (v is not None, v if v is not None else 0)
+    for tname in tables():
+        for first, second in (('r', 'k'), ('k', 'r')):
+            for ob in ('sum(x) DESC', f'{second} DESC, {first}', 'count(*), sum(x) DESC', f'{first} DESC'):
+                for lim in (0, 1, 2, 3, 5):
+                    head = f'SELECT {first}, {second}, sum(x), count(*) FROM #{tname} GROUP BY {first}, {second} ORDER BY {ob}'
+                    base_q = head + f' LIMIT {lim}'
+                    q = head + f' PIVOT BY {first}, {second} LIMIT {lim}'        # clause order of the grammar: ORDER BY, PIVOT BY, LIMIT
+                    res.case(('limited', q))
+                    try:
+                        base = conn.execute(base_q).fetchall()
+                        got = conn.execute(q).fetchall()
+                    except Exception as e:
+                        res.violation('h15:limited-crash:' + type(e).__name__, 'pivot query with ORDER BY and LIMIT executes', {'query': q}, f'{type(e).__name__}: {e}', 'rows')
+                        continue
+                    seconds = sorted({r[1] for r in base}, key=nkey)
+                    want = []
+                    for f in sorted({r[0] for r in base}, key=nkey):
+                        row = [f]
+                        for sv in seconds:
+                            hit = [r for r in base if r[0] == f and r[1] == sv]
+                            row += list(hit[0][2:]) if hit else [None, None]
+                        want.append(tuple(row))
+                    if [tuple(r) for r in got] != want:
+                        res.violation('h15:limited:' + ob, 'PIVOT BY reshapes the rows the un-pivoted statement (with its ORDER BY and LIMIT) returns', {'query': q}, got[:3], want[:3])
+
+
 def run(tier, seed):
     res = Result('aggregate queries grouped by exactly the two pivot columns on full / sparse / duplicate-key / single-row / empty tables; both key orders; '
                  '1-3 remaining aggregate columns; pivot columns in any target positions; by name and by position; distinct = distinct query')
@@ -163,6 +193,7 @@ def run(tier, seed):
         if bad:
             res.violation('h15:' + bad[0][:50] + ':' + bad[1]['query'][:70], bad[0], bad[1], bad[2], bad[3])
     invalid_refs(res)
+    limited(res)
     return res.asdict()
 
 
